@@ -54,7 +54,7 @@ def run(tier, seed, verdict):
     from nixio import IndexMode, SliceMode
     MODE = {"leq": IndexMode.LessOrEqual, "less": IndexMode.Less, "geq": IndexMode.GreaterOrEqual}
     SMODE = {"inclusive": SliceMode.Inclusive, "exclusive": SliceMode.Exclusive}
-    G = 4.0
+    G = 4.0  # default grid; every vector carries its own
     counts = {}
     samples = []
     nontrivial = set()
@@ -64,8 +64,8 @@ def run(tier, seed, verdict):
         nf = nixio.File.open(os.path.join(tmp, "dims.nix"), nixio.FileMode.Overwrite)
         blk = nf.create_block("b", "t")
 
-        def dim_for(d):
-            key = repr(sorted(d.items()))
+        def dim_for(d, G):
+            key = repr(sorted(d.items())) + repr(G)
             if state["desc"] == key:
                 return state["dim"]
             state["n"] += 1
@@ -87,12 +87,13 @@ def run(tier, seed, verdict):
 
         def judge(vec):
             d, q, r = vec["cfg"], vec["q"], vec["r"]
+            G = float(vec.get("g", 4))
             kind = q["kind"]
             ck = d["kind"] + "/" + kind
             counts[ck] = counts.get(ck, 0) + 1
             if counts[ck] in (1, 500) and len(samples) < 12:
                 samples.append(vec)
-            dim = dim_for(d)
+            dim = dim_for(d, G)
             nontrivial.add((state["desc"], repr(sorted(q.items()))))
             if kind == "index_of":
                 want = r["idx"]
@@ -148,7 +149,16 @@ def run(tier, seed, verdict):
 
         cfg = "MC_C07.cfg" if tier == "thorough" else "MC_C07_quick.cfg"
         res = core.run_tlc("MC_NixDim", cfg, tmp, workers=1, export_cb=cb, timeout=3000, coverage=False)
+        res2 = core.run_tlc("MC_NixDim", "MC_C07_big.cfg", tmp, workers=1, export_cb=cb, timeout=3000, coverage=False)
         nf.close()
+    for extra in (res2,):
+        if extra.violation is not None:
+            verdict.violation("tlc/law_violated/big", {"tlc": extra.violation, "trace": extra.error_trace[:40]})
+        elif extra.rc != 0:
+            raise core.MachineryError("TLC failed: rc=%s\n%s" % (extra.rc, "\n".join(extra.log_tail[-20:])))
+        res.distinct += extra.distinct
+        res.exports += extra.exports
+        res.generated += extra.generated
     if res.violation is not None:
         verdict.violation("tlc/law_violated", {"tlc": res.violation, "trace": res.error_trace[:40]})
     elif res.rc != 0:
@@ -174,6 +184,8 @@ def run(tier, seed, verdict):
         "checker_cmd": res.cmd,
     }
     assumptions = [
+        "a second configuration uses grid 1/1024 with offsets of +-4096 and 40960 (offset/interval ratio 2*10^6..2*10^7), "
+        "positions on and half-way between samples, so tolerances taken relative to the absolute position are exposed",
         "coordinates on a grid of 1/4: positions, ticks, offsets and intervals are exact binary fractions, the "
         "np.isclose tolerance zone is not probed",
         "sampling intervals > 0; start <= end in range_indices (start > end is left open)",
